@@ -94,7 +94,10 @@ pub fn analyze_rows(egraph: &EGraph, enode: &Expr) -> Rows {
         Xor([a, b]) => x(a) + x(b) - 2.0 * x(a) * x(b),
         Not(a) => 1.0 - x(a),
         Gt(_) | Lt(_) | GtEq(_) | LtEq(_) | Eq(_) | NotEq(_) | Like(_) => 0.5,
-        In([_, b]) => 1.0 / x(b),
+        // (a selectivity: at most 1, also when the estimate of the subquery is below one row -
+        // otherwise `NOT IN` gets a negative selectivity, plans get negative rows and costs, and
+        // cost extraction never reaches a fixed point)
+        In([_, b]) => (1.0 / x(b)).min(1.0),
         Exists(_) => 0.5,
 
         _ => 1.0,
